@@ -990,26 +990,24 @@ class Terminal:
                 while stop < len(data):
                     start = stop
                     stop = min(len(data), start + self.mbx_out_sz - 9)
+                    cmd = toggle
+                    d = data[start:stop]
                     if stop == len(data):
-                        if stop - start < 7:
-                            cmd = 1 + (7-stop+start << 1)
-                            d = data[start:stop] + b"\0" * (7 - stop + start)
-                        else:
-                            cmd = 1
-                            d = data[start:stop]
-                        await self.mbx_send(
-                                MBXType.COE, "HBHB4x", CoECmd.SDOREQ.value << 12,
-                                cmd + toggle, index,
-                                1 if subindex is None else subindex, data=d)
-                        type, response = await self.mbx_recv()
-                        if type is not MBXType.COE:
-                            raise EtherCatError(f"expected CoE, got {type}")
-                        coecmd, sdocmd, idx, subidx = unpack("<HBHB", response[:6])
-                        if coecmd >> 12 != CoECmd.SDORES.value:
-                            raise EtherCatError(f"expected CoE SDORES")
-                        if idx != index or subidx != (1 if subindex is None
-                                                      else subindex):
-                            raise EtherCatError(f"requested index {index}")
+                        cmd |= 1
+                    if len(d) < 7:
+                        cmd |= 7 - len(d) << 1
+                        d = d + b"\0" * (7 - len(d))
+                    await self.mbx_send(
+                            MBXType.COE, "HB", CoECmd.SDOREQ.value << 12,
+                            cmd, data=d)
+                    type, response = await self.mbx_recv()
+                    if type is not MBXType.COE:
+                        raise EtherCatError(f"expected CoE, got {type}")
+                    coecmd, sdocmd = unpack("<HB", response[:3])
+                    if coecmd >> 12 != CoECmd.SDORES.value:
+                        raise EtherCatError(f"expected CoE SDORES")
+                    if sdocmd != 0x20 | toggle:
+                        raise EtherCatError(f"download of {index:x} failed")
                     toggle ^= 0x10
 
     async def read_object_entry(self, index, subidx):
